@@ -37,6 +37,27 @@ def validate(ctx, cases, want):
     return fails
 
 
+def oracle_check(ctx, cases, want):
+    """Oracle validator of the reference side (never looks at xjs): the ESTree that node's bundled
+    acorn assigns to each rendered text, normalised to the spec's tree shape, must be the tree the
+    text was rendered from.  A disagreement means XjsGrammar's reference grammar / unparser is wrong:
+    infrastructure failure, no verdict."""
+    ref = ctx.ref_parse([dict(id=c["id"], text=bytes(c["src"]).decode(), tree=True, allowReturn=True) for c in cases])
+    bad, skipped = [], 0
+    for c in cases:
+        r = ref[c["id"]]
+        if not r.get("acorn"):
+            skipped += 1          # e.g. a name declared twice by two templates: an early error, not a grammar matter
+            continue
+        if r["tree"] != want[c["id"]]:
+            bad.append((bytes(c["src"]).decode(), r["tree"], want[c["id"]]))
+    ctx.cov["oracle_acorn_agreed"] = len(cases) - skipped - len(bad)
+    ctx.cov["oracle_acorn_rejected_text"] = skipped
+    if bad:
+        raise vlib.Infra("the reference grammar of XjsGrammar disagrees with acorn on %d of %d rendered texts, e.g. %r: acorn %s vs reference %s"
+                         % (len(bad), len(cases), bad[0][0], json.dumps(bad[0][1])[:300], json.dumps(bad[0][2])[:300]))
+
+
 def mc_export(ctx, module, cfg, timeout=3000):
     mc = ctx.tlc(module, cfg, timeout=timeout, xss="64m", heap="12g")
     if not mc.ok:
@@ -64,6 +85,7 @@ def run(ctx):
             cases.append(dict(id=cid, src=list(text.encode()), cfg=dict(tolerant=False, smart=False), compile=False))
             want[cid] = e["want"]
     ctx.cov["samples"] = [dict(text=bytes(c["src"]).decode(), want=want[c["id"]]) for c in (cases[7 % len(cases)], cases[len(cases) // 2], cases[-1])]
+    oracle_check(ctx, cases, want)
     fails = validate(ctx, cases, want)
     ctx.cov["distinct_nontrivial"] = len(cases)
     ctx.cov["failing_inputs"] = len(fails)
